@@ -309,7 +309,22 @@ def join_literal_sets(sets):
         for m in by_path:
             u |= m[key]
         common.add(("variant", key[0], u, key[1]))
-    return common
+    # drop variant literals subsumed by a stricter literal on the same path
+    best = {}
+    for l in common:
+        if l[0] == "variant":
+            k = (l[1], l[3])
+            best[k] = best[k] & l[2] if k in best else l[2]
+    out = set()
+    for l in common:
+        if l[0] == "variant":
+            if l[2] == best[(l[1], l[3])]:
+                out.add(l)
+        else:
+            out.add(l)
+    for k, v in best.items():
+        out.add(("variant", k[0], v, k[1]))
+    return out
 
 
 _CONDS = {}
